@@ -24,8 +24,8 @@ Definition decl_lookup (k : nat) (key : str) : option nat :=
 
 (* typed assignment, from the documentation of strconv.ParseBool and ParseInt(s, 10, 64) *)
 Definition ref_bool (s : str) : option bool :=
-  if existsb (fun w => str_eqb s (zs w)) ["1"; "t"; "T"; "TRUE"; "true"; "True"] then Some true
-  else if existsb (fun w => str_eqb s (zs w)) ["0"; "f"; "F"; "FALSE"; "false"; "False"] then Some false
+  if existsb (str_eqb s) [L "1"; L "t"; L "T"; L "TRUE"; L "true"; L "True"] then Some true
+  else if existsb (str_eqb s) [L "0"; L "f"; L "F"; L "FALSE"; L "false"; L "False"] then Some false
   else None.
 Fixpoint ref_digits (s : str) (acc : Z) : option Z :=
   match s with
@@ -65,7 +65,7 @@ Fixpoint ref_tokens (k : nat) (toks : list (str * str)) (st : list value) : opti
 
 (* simple form written out: json-name="text" / json-name=true / json-name=123, sorted, joined by one space *)
 Definition ref_text (v : value) : str :=
-  match v with VS s => [34] ++ s ++ [34] | VB true => zs "true" | VB false => zs "false" | VI z => itoa z end.
+  match v with VS s => [34] ++ s ++ [34] | VB true => L "true" | VB false => L "false" | VI z => itoa z end.
 Definition ref_format (k : nat) (v : list value) : str :=
   join32 (sort_by str_leb
     (map (fun e => match e with (i, name, _) => name ++ [61] ++ ref_text (nth i v (VS [])) end) (decl k))).
@@ -158,15 +158,15 @@ Fixpoint ref_query (k : nat) (q all : list (str * str)) (st : list value) : opti
       | _, _ => None
       end
   end.
-Definition ref_set (k : nat) (tag : String.string) (s : str) (st : list value) : list value :=
-  match decl_lookup k (zs tag) with Some i => upd i (VS s) st | None => st end.
+Definition ref_set (k : nat) (tag : str) (s : str) (st : list value) : list value :=
+  match decl_lookup k tag with Some i => upd i (VS s) st | None => st end.
 Definition ref_uri (k : nat) (u : wurl) (init : list value) : option (list value) :=
-  let st := ref_set k "port" (w_port u) (ref_set k "hostname" (w_host u) init) in
+  let st := ref_set k (L "port") (w_port u) (ref_set k (L "hostname") (w_host u) init) in
   let st := match w_user u with
-            | Some (a, b) => ref_set k "password" b (ref_set k "username" a st)
+            | Some (a, b) => ref_set k (L "password") b (ref_set k (L "username") a st)
             | None => st
             end in
-  let st := ref_set k "database" (match w_path u with 47 :: r => r | p => p end) st in
+  let st := ref_set k (L "database") (match w_path u with 47 :: r => r | p => p end) st in
   ref_query k (w_query u) (w_query u) st.
 
 (* the domain of the URI round trip: host of letters, digits, '.', '-'; port of digits; KeyInfo-like structs excluded *)
@@ -198,7 +198,12 @@ Definition run (fn : Z) (i : tree) : tree :=
          | None => TL [TI 9]
          end
   | 4 => match format_uri ident k (values_of_tree (t_nth 1 i)) with
-         | Some u => TL [tree_of_wurl u; out_tree (parse_uri ident k u (zero_struct k))]
+         | Some u =>
+             (* net/url: "://?..." (KEY form without a scheme) is rejected by url.Parse: missing protocol scheme *)
+             match w_user u, w_path u, w_scheme u with
+             | None, [], [] => TL [TL []; out_tree Err]
+             | _, _, _ => TL [tree_of_wurl u; out_tree (parse_uri ident k u (zero_struct k))]
+             end
          | None => TL [TI 9]
          end
   | 5 => let text := t_bytes (t_nth 1 i) in
